@@ -7,6 +7,16 @@ history is still monitored. -/
 namespace Driver.ProducerHist
 open Driver Model.Producer
 
+def hexNat (s : String) : Nat :=
+  s.toList.foldl (fun acc ch => acc * 16 + (hexVal ch).getD 0) 0
+
+/-- error token: `0` or `class/hash` -/
+def parseErr (t : String) : Err :=
+  if t == "0" then Err.ok else
+  match t.splitOn "/" with
+  | [c, h] => ⟨if c == "maxbuf" then .maxBuffered else .other, hexNat (c ++ h) + 1⟩
+  | _ => ⟨.other, hexNat t + 1⟩
+
 def parseKind : String → Option Kind
   | "p" => some .produce | "t" => some .try_ | "s" => some .sync | _ => none
 
@@ -17,8 +27,8 @@ def parseEv (t : String) : Option Ev :=
   | ["A", id, n, b, sz] => do some (.admit (← id.toNat?) (← n.toNat?) (← b.toNat?) (← sz.toNat?))
   | ["K", id] => do some (.block (← id.toNat?))
   | ["W", id] => do some (.unblock (← id.toNat?))
-  | ["U", id, e] => do some (.hookU (← id.toNat?) e)
-  | ["R", id, e, _off] => do some (.promise (← id.toNat?) e)
+  | ["U", id, e] => do some (.hookU (← id.toNat?) (parseErr e))
+  | ["R", id, e, _off] => do some (.promise (← id.toNat?) (parseErr e))
   | ["D", id, n, b] => do some (.release (← id.toNat?) (← n.toNat?) (← b.toNat?))
   | ["X", id] => do some (.ret (← id.toNat?))
   | ["Fs", k] => do some (.flushStart (← k.toNat?))
@@ -60,7 +70,7 @@ def handle (prop : String) (line : String) : String :=
       let rs := refusals c {} es 0 []
       let mine := rs.filter (fun (_, r) => r.startsWith prop)
       let nBlock := (es.filter (fun e => match e with | .block _ => true | _ => false)).length
-      let nErr := (es.filter (fun e => match e with | .promise _ e => e != "0" | _ => false)).length
+      let nErr := (es.filter (fun e => match e with | .promise _ e => e.cls != .ok | _ => false)).length
       let nCall := (es.filter (fun e => match e with | .call _ _ _ => true | _ => false)).length
       let nt := boolStr (decide (nCall ≥ 10) && (decide (nBlock > 0) || decide (nErr > 0)))
       let endsQ := match es.getLast? with | some (.quiesce _ _) => true | _ => false
